@@ -618,6 +618,7 @@ def emit_request_fault(case, obs, base_req):
     """a run with injected faults against the emitter: the program is the one reconstructed from the fault-free parent run, the
     failure oracle is "the k-th statement-level call raises" read off the real run (close() never asks the oracle)"""
     if any(f[2] == 'after' or f[1] in FOREIGN for f in case['faults']): return None
+    if any(op[0] == 'try' for op in case['program']): return None     # a fault inside the user's try/except is swallowed: the ops reconstructed from the parent run carry no `caught` marks
     real = project_events(obs)
     if real is None: return None
     if any(e['call'] == 'close' and e['outcome'] != 'ok' for e in obs['events']): return None
